@@ -2172,4 +2172,40 @@ M("s12-quiet-range-width-from-type", "C05", "quiet", "src/compile.rs",
                     .unwrap_array_size(prg, circuit.const_sizes())
                     .expect("a range is an array");
                 let mut array = Vec::with_capacity(elem_bits * size);""", "behaviour-preserving: range elements sized by the element type of the expression's own type")
+REVERT("revert-le-ge-clone-operands", "C14", "fire E11", "71e8dfa", "pre-fix tree: `<=` / `>=` desugared with both operands cloned")
+REVERT("revert-le-ge-clone-operands-c02", "C02", "fire P7", "71e8dfa", "pre-fix tree: `<=` / `>=` desugared with both operands cloned (failure reported twice / spuriously)")
+REVERT("revert-mul-operand-once", "C14", "fire E12", "18f9826", "pre-fix tree: `y * 3` clones and lowers y three times")
+M("e12-operand-lowered-in-loop", "C14", "fire E12", "src/compile.rs",
+  """                            let operand = y.compile(prg, env, circuit);
+                            let operand_name = "<operand of mul>".to_string();""",
+  """                            let mut operand = y.compile(prg, env, circuit);
+                            for _ in 1..n {
+                                operand = y.compile(prg, env, circuit);
+                            }
+                            let operand_name = "<operand of mul>".to_string();""", "the operand of the literal multiplication is lowered once per addend in a loop")
+M("e11-not-equal-by-clone", "C14", "fire E11", "src/parse.rs",
+  """                TokenEnum::GreaterThanEquals => {
+                    let lt =
+                        Expr::untyped(ExprEnum::Op(Op::LessThan, Box::new(x), Box::new(y)), meta);
+                    Expr::untyped(ExprEnum::UnaryOp(UnaryOp::Not, Box::new(lt)), meta)
+                }""",
+  """                TokenEnum::GreaterThanEquals => {
+                    let gt = Expr::untyped(
+                        ExprEnum::Op(Op::GreaterThan, Box::new(x.clone()), Box::new(y.clone())),
+                        meta,
+                    );
+                    let eq = Expr::untyped(ExprEnum::Op(Op::Eq, Box::new(x), Box::new(y)), meta);
+                    Expr::untyped(ExprEnum::Op(Op::ShortCircuitOr, Box::new(gt), Box::new(eq)), meta)
+                }""", "`>=` as `x > y || x == y` with cloned operands")
+M("e11-quiet-clone-then-drop", "C14", "quiet", "src/parse.rs",
+  """                TokenEnum::GreaterThanEquals => {
+                    let lt =
+                        Expr::untyped(ExprEnum::Op(Op::LessThan, Box::new(x), Box::new(y)), meta);""",
+  """                TokenEnum::GreaterThanEquals => {
+                    let lhs = x.clone();
+                    drop(x);
+                    let lt = Expr::untyped(
+                        ExprEnum::Op(Op::LessThan, Box::new(lhs), Box::new(y)),
+                        meta,
+                    );""", "behaviour-preserving: the operand is cloned and the original dropped")
 
